@@ -19,7 +19,8 @@ from .. import fixtures as F
 from .. import history as H
 
 PID = 'C17'
-RULE = ('BFS over all operation sequences up to the depth bound over {step_net, step_nas, option changes, discrete_cost, train, eval, set coefficients} '
+RULE = ('BFS over all operation sequences up to the depth bound over {step_net, step_nas, option changes, discrete_cost, train, eval, set coefficients, '
+        'observe (= cost + summary + export, the logging calls of a search)} '
         'on PIT (1D with BN, 2D), MPS per-layer / per-channel and SuperNet (soft, Gumbel) models; in EVERY reached state a checkpoint is taken and '
         'restored into a freshly constructed wrapper (same constructor arguments, same caller-visible train/eval mode) and the two are compared on '
         'keys, seeded forward, all costs, summary, export output, and again after one more identical training step; '
@@ -35,6 +36,7 @@ def bounds(tier):
 
 
 MODELS = [('pit', 'pit1d', {}), ('pit', 'pit2d', {}), ('mps', 'mps_a', {}), ('mps', 'mps_b', {'per_channel': True}),
+          ('mps', 'mps_b', {'per_channel': True, 'w0': True}),     # per-channel search with the 0-bit (pruning) alternative
           ('sn', 'sn_a', {}), ('sn', 'sn_gumbel', {})]
 
 
@@ -49,7 +51,8 @@ def cases(tier, seed):
 
 
 def _alphabet(method):
-    base = ['step_net', 'step_nas', 'train', 'eval', 'setcoef']
+    # 'observe' = the logging calls made during a search (cost, summary(), export()) - they must not alter what a checkpoint holds
+    base = ['step_net', 'step_nas', 'train', 'eval', 'setcoef', 'observe']
     if method == 'pit':
         return base + ['disc=1']
     if method == 'mps':
@@ -64,9 +67,13 @@ def _make(case, seed):
     if kw.pop('per_channel', False):
         from plinio.methods.mps import MPSType
         kw['w_search_type'] = MPSType.PER_CHANNEL
+    if kw.pop('w0', False):
+        from plinio.methods.mps import get_default_qinfo
+        kw['qinfo'] = get_default_qinfo(w_precision=(0, 2, 4, 8), a_precision=(4, 8))
     spec = {'a': params_bit, 'b': ops_bit} if method == 'mps' else {'a': params, 'b': ops}
     nas, x, _ = F.make(method, case['model'], seed, train=True, cost=spec, **kw)
     nas.train()
+    nas._verif_no_export = bool(case['kw'].get('per_channel', False))   # (plain python attribute of the harness, not library state)
     return nas, x
 
 
@@ -104,6 +111,13 @@ def _apply(nas, x, op, method, k, opts):
         nas.eval()
     elif op == 'setcoef':
         _setcoef(nas, method)
+    elif op == 'observe':
+        with torch.no_grad():
+            nas.get_cost('a')
+            nas.get_cost('b')
+        nas.summary()
+        if not getattr(nas, '_verif_no_export', False):
+            nas.export()
     elif op == 'disc=1':
         nas.discrete_cost = True
         opts['disc'] = True
